@@ -44,6 +44,19 @@ Theorem C10_worklist_closure_choice_independent : forall succ pend seen r1 r2,
 Proof. exact closure_choice_independent. Qed.
 Print Assumptions C10_worklist_closure_choice_independent.
 
+(* 4b. FunctionScope._resolve_origin in full: a definer unknown to this scope aborts the search
+       (EMPTY_ORIGIN).  Whether the search aborts, and otherwise the visited set, do not depend
+       on which element pop() returns *)
+Theorem C10_resolve_origin_choice_independent : forall succ known pend seen r1 r2,
+  oclosure_run succ known pend seen r1 -> oclosure_run succ known pend seen r2 ->
+  match r1, r2 with
+  | None, None => True
+  | Some a, Some b => forall x, In x a <-> In x b
+  | _, _ => False
+  end.
+Proof. exact oclosure_choice_independent. Qed.
+Print Assumptions C10_resolve_origin_choice_independent.
+
 (* 5. sorted(): the repaired protocol-member loop *)
 Theorem C10_sorted_perm_invariant : forall s s', Permutation s s' ->
   sorted_list s = sorted_list s' /\ ascending (sorted_list s) /\ Permutation (sorted_list s) s.
